@@ -58,8 +58,14 @@ C07(e) ==
 DOf(e) == IF e.terms THEN Cardinality((OldReach(e) \ ReachT(e.new)) \cup (ReachT(e.new) \ OldReach(e))) ELSE e.d
 C15(e) ==
   IF ~e.counted THEN {}
-  ELSE (IF e.eloads > 2 * DOf(e) + 2 THEN {V("C15", "entry diff reads more than 2*D+2 distinct nodes")} ELSE {})
-       \cup (IF e.lres = "ok" /\ e.lloads > 2 * DOf(e) + 2 THEN {V("C15", "node diff reads more than 2*D+2 distinct nodes")} ELSE {})
+  \* (recorded finding C15-different-heights: when the two roots record different heights the level-by-level walk opens nodes
+  \* that both versions contain; identified by the heights alone)
+  ELSE (IF e.eloads > 2 * DOf(e) + 2
+        THEN {V("C15", IF e.hasold /\ e.ho # e.hn THEN "entry diff of two versions of different heights reads more than 2*D+2 distinct nodes"
+                       ELSE "entry diff reads more than 2*D+2 distinct nodes")} ELSE {})
+       \cup (IF e.lres = "ok" /\ e.lloads > 2 * DOf(e) + 2
+             THEN {V("C15", IF e.hasold /\ e.ho # e.hn THEN "node diff of two versions of different heights reads more than 2*D+2 distinct nodes"
+                            ELSE "node diff reads more than 2*D+2 distinct nodes")} ELSE {})
        \cup (IF e.same /\ (e.eloads > 0 \/ e.lloads > 0) THEN {V("C15", "diff of a version with itself reads nodes")} ELSE {})
 
 Machine(e) == Run(InitDS(e.old, e.new, e.hasold, FALSE), e.cfg.layers, TRUE)
